@@ -20,6 +20,12 @@ def seeds_of(seed):
 
 
 GRID = [0.1, 0.5, 1.0, 2.0, 5.0, 20.0]
+# the routines `repro1` knows (harness/C18.cpp: reproCall)
+REPRO_ROUTINES = ["giveRandomNumberBetweenZeroAndEntry", "giveIntRandomNumberBetweenZeroAndEntry", "flipCoin", "randGaussian", "randGamma1",
+                  "randGamma2", "randBeta", "randExponential", "pickOne", "pickOneConst", "pickOneW", "pickOneWConst", "getSample",
+                  "getSampleRepl", "getSampleW", "getSampleWRepl", "pickFromCumSum", "randMultinomial", "rcont2", "ContingencyTableTest",
+                  "discreteRand", "Gamma::randC", "Gaussian::randC", "Exponential::randC", "TruncExponential::randC", "Beta::randC",
+                  "Uniform::randC", "hmmSample"]
 STAT_OPS = ("ks", "chi2", "chi2d", "chi2rc")
 
 
@@ -208,6 +214,11 @@ def stat_cases(rng, seeds, tier):
         cases.append(["case chi2rc-%d" % i, "seed %d" % s, "chi2rc %d %d %d %d %d" % (n_chi // 4, r0, r1, c0, r0 + r1 - c0)])
     for s in seeds:
         cases.append(["case repro-%d" % s, "repro %d" % s])
+    # every modelled routine on its own: same seed, different histories before it (even and odd numbers of
+    # earlier calls: a cached second value of a pair-producing sampler shows after an odd number)
+    for j, r in enumerate(REPRO_ROUTINES):
+        ops = ["repro1 %s %d %d %d" % (r, seeds[(j + q) % len(seeds)], a, b) for q, (a, b) in enumerate([(0, 1), (1, 2), (2, 5), (0, 4)])]
+        cases.append(["case repro1-%s" % r] + ops)
     return cases
 
 
